@@ -23,7 +23,8 @@
 EXTENDS Chain, Json
 
 CONSTANTS MaxN,     \* operators per chain
-          AllOps,   \* FALSE: only operators that have a real counterpart (see Instantiable)
+          AllOps,   \* FALSE: only operators that have a real counterpart (see Instantiable);
+                    \* TRUE: all of them in direct mode (sections always use instantiable ones)
           NFam,     \* chains up to this length may use the second set of families
           Pats,     \* hole patterns explored in section mode
           PrintAll  \* print REPLAY lines also for chains no real operator can instantiate
@@ -48,7 +49,7 @@ Init == \/ MInit("direct", "none")
 Choose ==
     /\ Len(chain) < MaxN
     /\ \E d \in Ops :
-         /\ AllOps \/ Instantiable(d)
+         /\ (AllOps /\ mode = "direct") \/ Instantiable(d)      \* sections: instantiable operators only
          /\ (d.fam2 \/ \E j \in 1..Len(chain) : chain[j].fam2) => Len(chain) < NFam
          /\ EvalOperator(d)
 
